@@ -50,8 +50,11 @@ class SocketTransport(CPXTransport):
         self._socket = None
 
     def writePacket(self, packet):
-        data = bytearray(struct.pack('H', packet.length+2))
-        data += packet.wireData
+        # Frame with the size of what is actually sent: packet.length is only
+        # set by the constructor and when decoding, not when data is assigned
+        wire_data = packet.wireData
+        data = bytearray(struct.pack('H', len(wire_data)))
+        data += wire_data
         self._socket.send(data)
 
     def _readData(self, size):
